@@ -46,7 +46,10 @@ theorem C20_frame : ∀ f ∈ inScope, f ∉ frameExceptions → writeRoots f = 
 
 /-- The exception list is empty: since the fix commits b501fa0, cd8d9e4, 2481879 no function in
 scope may write an argument.  (Until then it named `to_complex`, `load_network`, everything
-forwarding to them, and the in-place conversions of dump_load.py.) -/
+forwarding to them, and the in-place conversions of dump_load.py.)
+`frameExceptions` is a hand-written constant of CC/Model/Effects.lean, so this is `rfl` on a
+literal `[]` — a registration that the list is empty, not a fact about the code; the fact about
+the code is `C20_frame_rows` / `C20_frame_all` (`decide` over the generated table). -/
 theorem C20_frame_exceptions_exact : frameExceptions = [] := rfl
 
 /-- …so the frame is unconditional. -/
@@ -164,7 +167,14 @@ theorem Load.loadSem_post (T : Trig) (fn : String) (flag : Bool) (v v' : J) (out
     | cases h
 
 /-- The loader model of C17, run as a machine over a pool of description objects, writes
-nothing — whatever the summary says it may write (it says: nothing). -/
+nothing — whatever the summary says it may write (it says: nothing).
+Scope of this theorem: for `to_complex`, `load_network`, `generate_component`, `undictify_circuit`
+the post-state is *computed* by the model (it follows the generated flags `degreeInPlace`,
+`entryCopied`, `componentCopied`) and its equality with the argument is `C17_pure` /
+`C17_circuit_pure`.  For the four `dump_load.*` conversions `loadSem` returns the cell unchanged
+*by construction* (since fix 2481879 the model of these functions has no post-state at all), so
+for them the statement is definitional: their purity rests on the generated effect summary
+(`C20_frame_all`) and the snapshot oracle, not on this theorem. -/
 theorem C20_loaders_sound (T : Trig) : (loadMachine T).Sound := by
   intro op h
   simp only [loadMachine, loadStep]
